@@ -86,6 +86,7 @@ type Exec struct {
 	oldMem      *State // memory snapshot used for old(*p) while evaluating a callee contract
 	cutsDone    map[*CutSpec]bool
 	cutFacts    []int
+	limited     bool
 	assertsDone map[*AssertSpec]bool
 	appliesDone map[*ApplySpec]bool
 	arrayCells  map[*Cell]int
